@@ -5,6 +5,7 @@ Correspondence (model IrvRead.v vs the real code), four streams:
           read by BOTH real readers, x every (w, l, E) with w != l, w,l not in E: the assorters built by
           Assertion.make_assertions_from_json vs the model, NEBAssertion/NENAssertion.is_vote_for_* vs the model,
           both readers' rank dicts vs the model; repeated for several shapes of candidate identifiers
+  wide    6..10 candidates (too many to enumerate): random partial rankings x random (w, l, E), same comparisons
   dicts   rank dicts written directly (falsy ranks, absent candidates / contest, gaps, duplicate ranks, w == l,
           w in E, unknown candidates, odd `candidates` lists) incl. direct calls of rcv_lfunc_wo / rcv_votefor_cand
   files   RAIRE text with several contests having different candidate lists, repeated ballot ids, a contest repeated
@@ -164,8 +165,9 @@ def raire_obj(RU, cid, a):
     return RU.NENAssertion(cid, a[1], a[2], list(a[3]))
 
 
-def all_assertions(cands):
-    """every (w, l, E) with w != l and w, l not in E; plus the NEB for every (w, l)"""
+def all_assertions(cands, rng=None):
+    """every (w, l, E) with w != l and w, l not in E (E listed in a random order when rng is given); plus the NEB for
+    every (w, l)"""
     res = []
     for w in cands:
         for l in cands:
@@ -175,7 +177,10 @@ def all_assertions(cands):
             rest = [c for c in cands if c not in (w, l)]
             for k in range(len(rest) + 1):
                 for E in itertools.combinations(rest, k):
-                    res.append(("NEN", w, l, list(E)))
+                    E = list(E)
+                    if rng is not None:
+                        rng.shuffle(E)
+                    res.append(("NEN", w, l, E))
     return res
 
 
@@ -207,18 +212,35 @@ def order_of(d):
 
 
 # ---------------------------------------------------------------- stream 1: exhaustive sweep
-def sweep(ctx, res, A, RU, ids, n, si):
+WIDE_IDS = ["1", "12", "123", "2", "23", "3", "31", "4", "41", "1 2"]
+
+
+def sweep(ctx, res, A, RU, ids, n, si, sample=None):
+    """sample=None: all partial rankings x all assertions.  sample=(nb, na): nb random partial rankings x na random
+    assertions (for candidate sets too large to enumerate)."""
     cands = ids[:n]
     cid = ["C", "1", "C 1", "0", "Ann"][si % 5]      # contest id sometimes equal to a candidate id
     K = {c: 10 + i for i, c in enumerate(ids)}
     kc = 5
-    ranks = list(partial_rankings(cands))
-    ctx.rng.shuffle(ranks)
+    if sample is None:
+        ranks = list(partial_rankings(cands))
+        ctx.rng.shuffle(ranks)
+    else:
+        ranks = [tuple(ctx.rng.sample(cands, ctx.rng.randint(0, n))) for _ in range(sample[0])]
     lines = ["1", ",".join(["Contest", cid, str(n)] + cands + ["winner", cands[0]])]
     lines += [",".join([cid, f"b{j}"] + list(r)) for j, r in enumerate(ranks)]
     acvrs, contests, gcvrs = read_both(A, RU, "\n".join(lines) + "\n")
     amap = {c.id: c for c in acvrs}
-    asrts = all_assertions(cands)
+    if sample is None:
+        asrts = all_assertions(cands, ctx.rng)
+    else:
+        asrts = []
+        for _ in range(sample[1]):
+            w, l = ctx.rng.sample(cands, 2)
+            rest = [c for c in cands if c not in (w, l)]
+            u = ctx.rng.random()
+            k = len(rest) if u < 0.15 else (len(rest) - 1 if u < 0.3 else ctx.rng.randint(0, len(rest)))
+            asrts.append(("NEB", w, l) if ctx.rng.random() < 0.2 else ("NEN", w, l, ctx.rng.sample(rest, k)))
     jcands = list(cands)
     ctx.rng.shuffle(jcands)                            # order of `candidates` must not matter
     con = audit_contest(A, cid, cands)
@@ -228,7 +250,15 @@ def sweep(ctx, res, A, RU, ids, n, si):
     cases = []
     for j, r in enumerate(ranks):
         bid = f"b{j}"
-        av, gv = amap[bid], gcvrs[bid]
+        av, gv = amap.get(bid), gcvrs.get(bid)
+        res.oracle_runs += 1
+        if av is None or gv is None:
+            res.oracle_violations.append({
+                "what": "a reader of the RAIRE format lost a ballot line",
+                "input": {"header": lines[1], "line": lines[2 + j]},
+                "observed": {"CVR.from_raire has it": av is not None, "load_contests_from_raire has it": gv is not None},
+                "signature": "C14:readers-lost-ballot"})
+            continue
         outs = []
         for a, ka, asr, ro in zip(asrts, kas, assorters, robjs):
             x, gw, gl = asr.assort(av), ro.is_vote_for_winner(gv), ro.is_vote_for_loser(gv)
@@ -260,7 +290,8 @@ def sweep(ctx, res, A, RU, ids, n, si):
                       "gvotes": [(kc if k == cid else 6, [(K.get(c, 99), int(v)) for c, v in d.items()])
                                  for k, d in gv.items()],
                       "outs": outs, "calls": [],
-                      "json": {"ids": ids, "n": n, "contest": cid, "ranking": list(r), "stream": "sweep"}})
+                      "json": {"ids": ids, "n": n, "contest": cid, "ranking": list(r),
+                               "stream": "sweep" if sample is None else "wide"}})
     return cases
 
 
@@ -306,7 +337,10 @@ def dict_case(ctx, A, RU, ids):
         if rng.random() < 0.5:
             asrts.append(("NEB", w, l))
         else:
-            asrts.append(("NEN", w, l, rng.sample(pool, rng.randint(0, len(pool)))))
+            E = rng.sample(pool, rng.randint(0, len(pool)))
+            if E and rng.random() < 0.15:
+                E.insert(rng.randint(0, len(E)), rng.choice(E))
+            asrts.append(("NEN", w, l, E))
     con = audit_contest(A, cid, cands)
     assorters = build_assorters(A, con, jc, asrts)
     outs = []
@@ -441,7 +475,7 @@ def file_case(ctx, res, A, RU, ids):
                 "signature": "C14:readers-order"})
     # ---- oracle, end to end: assorter on the audit's CVR vs generator predicates on the generator's cvr
     for cid, cands in contests:
-        asrts = all_assertions(cands)
+        asrts = all_assertions(cands, rng)
         if len(asrts) > 40:
             asrts = rng.sample(asrts, 40)
         if not asrts:
@@ -559,12 +593,15 @@ def run(ctx, res):
     sw = []
     for si, ids in enumerate(ID_SETS):
         for n in range(1, nmax + 1):
-            if n == 5 and si >= 2:
-                continue                       # thorough: 5 candidates for the plain and the substring id sets
             cs = sweep(ctx, res, A, RU, ids, n, si)
             sw += cs
             stats["sweep_ballots"] += len(cs)
             stats["sweep_evaluations"] += sum(len(c["outs"]) for c in cs)
+    # 1b. candidate sets too large to enumerate: random rankings x random assertions, 6..10 candidates
+    for k in range(ctx.n(6, 60)):
+        cs = sweep(ctx, res, A, RU, WIDE_IDS, ctx.rng.randint(6, len(WIDE_IDS)), k, sample=(12, 30))
+        sw += cs
+        stats["wide_ballots"] = stats.get("wide_ballots", 0) + len(cs)
     # 2. direct rank dicts
     dc = [dict_case(ctx, A, RU, ctx.rng.choice(ID_SETS)) for _ in range(ctx.n(300, 4000))]
     stats["dict_cases"] = len(dc)
@@ -601,7 +638,7 @@ def run(ctx, res):
     res.exhaustive = True
     res.rule = (f"sweep: ALL partial rankings (every length, every order) of 1..{nmax} candidates x ALL (w,l,E) with w!=l, "
                 "w,l not in E, for 5 identifier shapes (substring/prefix numeric ids, ids with spaces), each ballot read from "
-                "RAIRE text by both real readers; non-trivial = the ranking mentions w or l, distinct by (id set, n, "
+                "RAIRE text by both real readers, plus random rankings x random (w,l,E) over 6..10 candidates; non-trivial = the ranking mentions w or l, distinct by (id set, n, "
                 "ranking, assertion).  Plus random directly-written rank dicts (falsy/duplicate ranks, absent contest, "
                 "w==l, w in E), random multi-contest RAIRE files (distinct texts), random profiles through "
                 "compute_raire_assertions (distinct (text, contest) with >= 1 assertion)")
